@@ -43,10 +43,10 @@ def gen_pool(json_path, module, name='Docs'):
 
 def gen_alphabets(path):
     A = json.load(open(path))
-    lines = ['\\* GENERATED from %s by lib/tlagen.py' % os.path.basename(path), '---- MODULE Alphabets ----',
+    lines = ['\\* GENERATED from %s by lib/tlagen.py' % os.path.basename(path), '---- MODULE Alphabets ----', 'EXTENDS Integers',
              '\\* lexeme alphabets for the exhaustive string enumerations of property C04 (code point sequences)']
     for name, syms in A.items():
-        lines.append('Alpha%s == <<%s>>' % (name, ', '.join(seq(map(str, x)) for x in syms)))
+        lines.append('Alpha%s == <<%s>>' % (name, ', '.join(seq(('(0 - %d)' % -c if c < 0 else str(c)) for c in x) for x in syms)))
     lines.append('====')
     return '\n'.join(lines) + '\n'
 
